@@ -226,9 +226,10 @@ class Model(object):
 
     def outcome(self, s):
         tasks = sorted(
-            [v['name'], v['state'],
-             {k: x for k, x in (v.get('published') or {}).items()}]
-            for v in s.insts.values())
+            ([v['name'], v['state'],
+              {k: x for k, x in (v.get('published') or {}).items()},
+              unflatten(v['ctx'])]
+             for v in s.insts.values()), key=freeze)
         return {'wf': s.wf, 'tasks': tasks, 'output': s.wf_output,
                 'flags': sorted(s.flags)}
 
@@ -572,7 +573,7 @@ def project_impl(outcome):
         if not t['task'].startswith('T[%s/' % w['wf']):
             continue
         pub = t['published'] or {}
-        tasks.append([t['name'], t['state'], pub])
+        tasks.append([t['name'], t['state'], pub, t.get('in_context') or {}])
     tasks.sort(key=lambda x: freeze(x))
     out = None
     if w['state'] == SUCCESS:
@@ -583,11 +584,13 @@ def project_impl(outcome):
     return {'wf': w['state'], 'tasks': tasks, 'output': out}
 
 
-def matches(impl_proj, model_out, compare_output=True):
+def matches(impl_proj, model_out, compare_output=True, compare_ctx=True):
     if impl_proj['wf'] != model_out['wf']:
         return False
-    mt = sorted(model_out['tasks'], key=lambda x: freeze(x))
-    if freeze(mt) != freeze(impl_proj['tasks']):
+    n = 4 if compare_ctx else 3
+    mt = sorted((x[:n] for x in model_out['tasks']), key=freeze)
+    it = sorted((x[:n] for x in impl_proj['tasks']), key=freeze)
+    if freeze(mt) != freeze(it):
         return False
     if compare_output and model_out['wf'] == SUCCESS \
             and 'succeed_cmd' not in model_out['flags'] \
